@@ -44,7 +44,11 @@ MANIFEST = {
             'overlap coefficients lie in [0,1], distribute every source '
             'layer completely and give each target layer exactly its '
             'thickness (which makes interpSigma(conserve) preserve the '
-            'thickness-weighted column integral and constants).',
+            'thickness-weighted column integral and constants). '
+            'interpDimension with a 2-D coordinate variable (2 levels x 2 '
+            'columns, symbolic levels, targets and field coefficients) '
+            'reproduces a field that is linear in each column\'s own '
+            'coordinate at that column\'s target levels.',
     'note': 'Trusted: z3 (NRA), the interp1d/np.interp definitions in the '
             'shim. Floats are reals.',
 }
